@@ -722,9 +722,16 @@ func driverMain(prop string) int {
 
 	// evidence
 	wall := time.Since(start).Seconds()
+	evalsOut, distinctOut := evals, len(ntHashes)
+	if agg.Cases["evaluations"] > 0 {
+		// enumeration scenarios count every injected fault / damage as one evaluation
+		evalsOut, distinctOut = agg.Cases["evaluations"], agg.Cases["distinct"]
+	}
 	cov := map[string]interface{}{
-		"evaluations":         evals,
-		"distinct_nontrivial": len(ntHashes),
+		"evaluations":         evalsOut,
+		"distinct_nontrivial": distinctOut,
+		"simulated_runs":      evals,
+		"distinct_nontrivial_run_traces": len(ntHashes),
 		"rule":                def.Rule,
 		"samples":             samples,
 		"distinct_traces":     len(hashes),
@@ -839,6 +846,9 @@ func buildReplay(v violRec, prop string, base uint64, tier string) *replayFile {
 	sc := scenarios[v.Scen]
 	seed := RunSeed(base, uint64(v.I))
 	plan := sc.Gen(seed, tier)
+	for k, x := range v.V.Hint {
+		plan.Knobs[k] = x
+	}
 	return &replayFile{Property: prop, Scenario: v.Scen, Seed: seed, Plan: plan,
 		Expect: expectT{Sig: v.V.Sig, Crash: v.Crash, Detail: v.V.Detail},
 		Note:   fmt.Sprintf("VERIF_SEED=%d run index %d of scenario %s (tier %s)", base, v.I, v.Scen, tier)}
